@@ -951,7 +951,13 @@ def failed_save_in_past(container, k=0):
     setattr(obj, attr, bad)
     failed = None
     try:
-        container.read()
+        if (k // 2) % 2 and attr == "mod_finetune" and type(container).__name__ == "Project" and getattr(obj, "parent", None) is container:
+            # what fails is the export of one attached module as an instrument file, not the save of the project
+            from rv.api import Synth
+
+            Synth(obj).read()
+        else:
+            container.read()
     except Exception as e:  # noqa: BLE001 - any refusal will do
         failed = type(e).__name__
     finally:
